@@ -59,7 +59,8 @@ E9 == <<0, 0, 10>>
 E6 == <<0, 100>>
 P18(ev) == [s |-> ev.p.s, m |-> ev.p.m]
 PIs(ev, num, den) == Cmp(SSub(SMul(P18(ev), SFrom(den)), SMul(SFrom(num), SNat(E18))).m, Mul(E9, FromNat(den))) <= 0
-PInRange(ev) == ev.p.s >= 0 /\ Cmp(ev.p.m, Add(E18, E6)) <= 0
+\* 0 <= P <= 1 up to rounding (1e-12 on either side: 1 - CDF of a CDF that rounds to 1 + 2e-13 is -2e-13)
+PInRange(ev) == (ev.p.s >= 0 \/ Cmp(ev.p.m, E6) <= 0) /\ Cmp(ev.p.m, Add(E18, E6)) <= 0
 PSame(a, b) == Cmp(SSub([s |-> a.s, m |-> a.m], [s |-> b.s, m |-> b.m]).m, E6) <= 0     \* within 1e-12
 
 Analyse(ev) ==
@@ -92,7 +93,7 @@ ApproxOK(ev, a) ==
       num == IF ev.alt = -1 THEN d + 1 ELSE IF ev.alt = 1 THEN d - 1 ELSE (IF IAbs(d) - 1 > 0 THEN 0 - (IAbs(d) - 1) ELSE 0)
       cube == Mul(Mul(FromNat(N + 1), FromNat(N)), FromNat(N - 1))
       fourS == [n |-> SNat(Mul(FromNat(n1 * n2), Sub(cube, TieSumB(a.T, Len(a.T))))), d |-> Mul(<<3>>, Mul(FromNat(N), FromNat(N - 1)))]
-      z2 == [n |-> SNat(Mul(FromNat(IAbs(num) * IAbs(num)), fourS.d)), d |-> fourS.n.m]
+      z2 == [n |-> SNat(Mul(Mul(FromNat(IAbs(num)), FromNat(IAbs(num))), fourS.d)), d |-> fourS.n.m]      \* (num^2 leaves 32 bits at 300 x 300)
       Dy2(x) == [s |-> IF x.s = 0 THEN 0 ELSE 1, m |-> Mul(x.m, x.m), e |-> 2 * x.e]
       one == [n |-> SNat(<<1>>), d |-> <<1>>]
       zero == [n |-> SZero, d |-> <<1>>]
